@@ -137,6 +137,7 @@ def out_lines(text):
 # ============================================================================================ C11
 class C11(BlockBase):
     id = "C11"
+    shared_ops = ["clean"]
     rule = ("one case = clean on one block document containing unwrap-block elements with 0..6 lines between the tags (blank, indented, "
             "multi-byte wrapper and inner lines; ready/pending default elements nested at every inner position); reference: the four "
             "lines (tag, wrapper, wrapper, tag) of an unwrappable ready element lose their text, every other non-blank line keeps its "
@@ -192,6 +193,7 @@ class C11(BlockBase):
 # ============================================================================================ C12
 class C12(BlockBase):
     id = "C12"
+    shared_ops = ["clean"]
     rule = ("one case = clean on one block document with unwrap-blocks (indentation units 2 spaces / 4 spaces / tab, tag indent 0-2 units, "
             "inner lines below/at/above the first inner line, nesting depth 1-3, block on the first line or later, unique line texts); "
             "reference: every surviving non-blank line keeps its text and loses exactly the indentation columns in the union of "
@@ -285,6 +287,7 @@ class C12(BlockBase):
 # ============================================================================================ C13
 class C13(BlockBase):
     id = "C13"
+    shared_ops = ["clean"]
 
     def spec_reqs(self, case, impl):
         k, v = parse_reply(impl[0])
@@ -387,6 +390,7 @@ class C13(BlockBase):
 # ============================================================================================ C14
 class C14(C02):
     id = "C14"
+    shared_ops = ["clean"]
     spec_name = "C14"
     rule = ("one case = clean on one document (block, inline, mutated, junk; all delimiter pairs); the Lean predicate Spec.c14Holds: the "
             "trimmed maximal stretches outside the ready extents (cut line by line inside unwrapped bodies) occur verbatim, in order and "
@@ -480,6 +484,7 @@ def parse_markers(s):
 
 class ListBase(Base):
     ops = ["trace", "list:json", "list:pretty", "list_all:json", "list_all:pretty", "clean"]
+    shared_ops = ["trace", "list:json", "list:pretty", "list_all:json", "list_all:pretty"]
 
     def mk_items(self, items, sp, final_nl, label):
         src = gen.render(items, sp, final_nl)
@@ -839,6 +844,7 @@ class C17(ListBase):
 # ============================================================================================ C18
 class C18(Base):
     id = "C18"
+    shared_ops = ["clean"]
     rule = ("one case = one AST document rendered under two spellings (delimiter pair and tag names) whose delimiter characters do not occur "
             "elsewhere; clean, list and list_all on both; the output of spelling A with every tag text rewritten to spelling B must equal the "
             "output of spelling B, and the (line_range, status) sequences of both listings must coincide; non-trivial = a ready element exists")
@@ -925,6 +931,7 @@ def ws_norm(s):
 
 class C19(Base):
     id = "C19"
+    shared_ops = ["clean"]
     rule = ("one case = one history: an AST document whose elements carry expiry times from a small ordered set and marker names from a pool, "
             "cleaned step by step along a non-decreasing chain of 1-4 configurations (time advancing, target set growing), compared with one "
             "clean under the final configuration (equal up to whitespace) and cleaned once more under the final configuration (must not change); "
